@@ -254,8 +254,8 @@ func corpusScale(c *vrep.Ctx, prop string) {
 	t, _ := strconv.ParseFloat(c.Param("t", "0.8"), 64)
 	cl := vEmbeddedCached(t)
 	docs := vDocPool(c.Pick(48, 431))
-	fams := strings.Split(c.Param("families", "exact,edit1,periodic,truncate,concat,scenario,edit2"), ",")
-	c.R.Rule = fmt.Sprintf("corpus scale at T=%v: %d documents x edit-script families %v (single edits at 24 evenly spaced positions x {delete, substitute OOV, substitute vocabulary word, insert OOV}; edit pairs at 6 positions; periodic noise every 5..14 words; truncations 60-90%% from either end; pool concatenations; scenario files); oracle %s; non-trivial = distinct generated inputs for which Match returned at least one non-Copyright match", t, len(docs), fams, prop)
+	fams := strings.Split(c.Param("families", "exact,edit1,periodic,scatter,truncate,concat,scenario,edit2"), ",")
+	c.R.Rule = fmt.Sprintf("corpus scale at T=%v: %d documents x edit-script families %v (single edits at 24 evenly spaced positions x {delete, substitute OOV, substitute vocabulary word, insert OOV}; edit pairs at 6 positions; periodic noise every 5..14 words; scattered irregular noise of 8-20%% density (low-discrepancy positions, mixed edit kinds); truncations 60-90%% from either end; pool concatenations; scenario files); oracle %s; non-trivial = distinct generated inputs for which Match returned at least one non-Copyright match", t, len(docs), fams, prop)
 	c.Bound("documents", len(docs))
 	c.Bound("threshold", t)
 	contexts := []c07Context{{3, 2, true}, {40, 0, true}, {1, 5, true}}
